@@ -44,7 +44,21 @@ def gen_random(R, count, nmax):
         n = R.rng.randint(1, nmax)
         P1, P2 = S.rand_ranks(R.rng, n), S.rand_ranks(R.rng, n)
         kind = R.rng.choice(["agree_ties", "agree_strict", "free", "tie_heavy", "omit", "omit", "omit_huge"])
-        if kind == "agree_ties":
+        if t % 3 == 1 and n >= 3:
+            # opposed interests: many rotations, dense rotation posets (uniformly random profiles have one or two rotations)
+            P1, P2 = S.opposed_ranks(R.rng, n, R.rng.choice([0.0, 2.0, 4.0]))
+            kind = R.rng.choice(["agree_ties", "agree_strict", "free", "tie_heavy"])
+            R.count("opposed_interests")
+        if t % 4 == 1 and kind not in ("omit", "omit_huge"):
+            kind = "huge"
+        if kind == "huge":
+            # amounts of the order of 10^9 .. 10^10: rotation weights leave the 32-bit range (and stay far below sys.maxsize)
+            hi = R.rng.choice([2 * 10 ** 9, 10 ** 10])
+            if R.rng.random() < 0.5:
+                V1, V2 = S.vals_agreeing(R.rng, P1, 0, hi), S.vals_agreeing(R.rng, P2, 0, hi)
+            else:
+                V1, V2 = S.vals_free(R.rng, n, -hi, hi), S.vals_free(R.rng, n, -hi, hi)
+        elif kind == "agree_ties":
             V1, V2 = S.vals_agreeing(R.rng, P1), S.vals_agreeing(R.rng, P2)
         elif kind == "agree_strict":
             V1, V2 = S.vals_agreeing(R.rng, P1, ties=False), S.vals_agreeing(R.rng, P2, ties=False)
@@ -257,7 +271,7 @@ def find_better(P1, P2, V1, V2, w, it):
     return None
 
 
-def mirror_compare(R, items, results):
+def mirror_compare(R, items, results, entry=None):
     """the executable Lean mirror of Irving's algorithm (IrvingAlgo): final answer on every case; every internal stage
     (male-optimal matching, shortlists, rotations + eliminating map, poset edges, weights + closed subset) in the thorough tier"""
     lines, where = [], []
@@ -281,12 +295,12 @@ def mirror_compare(R, items, results):
             except Exception:
                 exp = "uninterpretable"
             if a != exp:
-                R.corr_break("Irving.scf answer = answer of the Lean mirror IrvingAlgo.irving", ENTRY, inp, r["pairs"], a, cfg)
+                R.corr_break("Irving.scf answer = answer of the Lean mirror IrvingAlgo.irving", entry or ENTRY, inp, r["pairs"], a, cfg)
             else:
                 R.count("mirror_final_answer_equal")
         else:
             if r["stages"].get(op) != a:
-                R.corr_break(f"stage {op}: implementation stage output = Lean mirror", ENTRY, inp, r["stages"].get(op), a, cfg)
+                R.corr_break(f"stage {op}: implementation stage output = Lean mirror", entry or ENTRY, inp, r["stages"].get(op), a, cfg)
             else:
                 R.count("mirror_stage_equal:" + op)
     for r in results:
